@@ -439,6 +439,20 @@ def proof_stage(chk, props_rel, module, const_areas=(), pins_rel=None):
             okp, outp = check_pins(props_rel, pins_rel, chk.work)
             if not okp:
                 info["broken"].append("pinned statement no longer checks: " + outp[-600:])
+    if okb and chk.tier == "thorough":
+        # independent re-check of the compiled cone, and the axioms it (and everything it loads) uses
+        rcc, outc = sh(["coqchk", "-o", "-silent", "-Q", "theories", "Blue", "Blue." + module], cwd=COQ, timeout=3000)
+        summary = outc[outc.find("CONTEXT SUMMARY"):] if "CONTEXT SUMMARY" in outc else outc[-1500:]
+        ax = re.search(r"\* Axioms:(.*?)\n\s*\n\* Constants", summary, flags=re.S)
+        axl = [a.strip() for a in (ax.group(1) if ax else "?").split("\n") if a.strip()]
+        chk.coverage["coqchk"] = {"exit": rcc, "axioms": axl,
+                                  "type_in_type": "type-in-type: <none>" not in summary.replace("relying on ", ""),
+                                  "summary": " ".join(summary.split())[:600]}
+        if rcc != 0:
+            info["broken"].append("coqchk rejected the compiled cone: " + outc[-500:])
+        for a in axl:
+            if a != "<none>" and a not in ALLOWED_AXIOMS and a.split(".")[-1] not in ALLOWED_AXIOMS:
+                info["broken"].append("coqchk reports a non-allow-listed axiom in the loaded context: " + a)
     chk.coverage.update({
         "obligations": n_obl, "discharged": discharged if not info["broken"] else min(discharged, max(0, n_obl - 1)),
         "checker_cmd": "cd coq && coq_makefile -f _CoqProject -o Makefile && make %s  (coqc 8.16.1, full .vo build; then coqc Assum.v with Print Assumptions for: %s)" % (vo, ", ".join(thms)),
